@@ -264,6 +264,9 @@ func (l *listenContext) createEndpointAndPerformHandshake(s *segment, opts *head
 	// handshake because it's possible that the peer doesn't support window
 	// scaling.
 	ep.rcv.rcvWndScale = h.effectiveRcvWndScale()
+	// The sender was created from the SYN, whose window is never scaled; the
+	// window announced by the ACK that completed the handshake is the current one.
+	ep.snd.sndWnd = h.sndWnd
 
 	return ep, nil
 }
